@@ -92,7 +92,7 @@ def oracle(ctx, name, case, obs, check_next=True):
                     ctx.report([name, "boundary_skipped", lab], f"{name}: {lab} target {new} skips a boundary (cycle {c}, period {p})", {"case": fmt(case), "op": op})
                 if fired and not (isr2 & bit):
                     ctx.report([name, "isr_not_set", lab], f"{name}: {lab} fired but ISR={isr2:#x}", {"case": fmt(case), "op": op})
-            if (isr2 & ~3) != (pisr & ~3):
+            if (isr2 & ~3) != (pisr & ~3) and not name.endswith("_kb"):
                 ctx.report([name, "isr_other_bits"], f"{name}: ISR bits other than MTI/STI changed {pisr:#x}->{isr2:#x}", {"case": fmt(case), "op": op})
         if kind == "z" and prev is not None and (m2, s2) != prev[:2]:
             ctx.report([name, "snapshot_restore_moves_timer_target"], f"{name}: save + load moved the timer targets {prev[:2]} -> {(m2, s2)}", {"case": fmt(case), "op": op})
@@ -229,6 +229,31 @@ def run(ctx):
             else:
                 oracle(ctx, "rs", case, o, check_next=True)
         ctx.count("rust snapshot-restore cases", len(rl))
+        # the path CoreRuntime::step uses: tick_timers_with_keyboard, with a key event on every main-timer scan and the
+        # firmware acknowledging the status register now and then - a firing still sets its status bit
+        kl = []
+        for _ in range(300 if ctx.tier == "thorough" else 40):
+            pm, ps = ctx.rng.randint(1, 9), ctx.rng.randint(1, 9)
+            c = 0
+            ops = []
+            for _ in range(ctx.rng.randint(6, 20)):
+                if ctx.rng.random() < 0.3:
+                    ops.append("a")
+                c += ctx.rng.choice([1, 1, 1, 2, pm, ps])
+                ops.append(f"t:{c}")
+            kl.append((1, pm, ps, ctx.rng.choice([0, 4]), ops))
+        ko, ke = common.run_sharded([str(RUST_HARNESS)], ["timer_rs_kb " + fmt(c) for c in kl])
+        if ke.strip():
+            ctx.notes.append(f"timer_rs_kb stderr: {ke.strip()[-300:]}")
+        ko = (ko + ["MISSING"] * len(kl))[:len(kl)]
+        for case, o in zip(kl, ko):
+            ctx.evaluations += 1
+            ctx.traces += 1
+            if o.startswith("ERR") or o == "MISSING":
+                ctx.report(["rs", "error"], f"rs failed on a keyboard-tick case: {o}", {"case": fmt(case)})
+            else:
+                oracle(ctx, "rs_kb", case, o, check_next=True)
+        ctx.count("rust tick-with-keyboard cases", len(kl))
     # WAIT on the machine: the cycle counter advances through PCE500Emulator.step -> _simulate_wait; every boundary inside the
     # WAIT must fire exactly once, on the boundary cycle (the scheduler's advance() is observed, not replaced)
     wl = []
